@@ -105,6 +105,7 @@ type obsJ struct {
 	Open                             int
 	ErrText                          string `json:",omitempty"`
 	Panic                            string `json:",omitempty"`
+	Chunk                            int    `json:",omitempty"` // bytes offered by this call (w)
 }
 
 type finJ struct {
@@ -250,9 +251,18 @@ func dirNames(dir string) []string {
 	return out
 }
 
-func fdCount() int {
+// fdCount counts the open descriptors of this process that point into the WAF's TmpDir or
+// UploadDir (moved-away directories and deleted files included): the handles a transaction may own.
+func fdCount(we *wafEnv) int {
 	es, _ := os.ReadDir("/proc/self/fd")
-	return len(es)
+	n := 0
+	for _, e := range es {
+		t, err := os.Readlink("/proc/self/fd/" + e.Name())
+		if err == nil && (strings.HasPrefix(t, we.tmp) || strings.HasPrefix(t, we.up)) {
+			n++
+		}
+	}
+	return n
 }
 
 func withLimit(l int64, f func()) {
@@ -381,7 +391,7 @@ func observe(tx *corazawaf.Transaction, we *wafEnv, baseFD int) obsJ {
 		P2: p2, E: e,
 		NTmp: len(v.FilesTmpNames().Get("")), NFiles: len(v.Files().Get("")),
 		Len: int(l), MemLen: m, Spilled: sp,
-		Tmp: dirSizes(we.tmp), Up: dirSizes(we.up), Open: fdCount() - baseFD,
+		Tmp: dirSizes(we.tmp), Up: dirSizes(we.up), Open: fdCount(we) - baseFD,
 	}
 }
 
@@ -504,7 +514,7 @@ func runCase(e *env, c *caseJ) (*runOut, error) {
 	}
 	preTmpNames, preUpNames := dirNames(we.tmp), dirNames(we.up)
 	we.logbuf.Reset()
-	baseFD := fdCount()
+	baseFD := fdCount(we)
 	tx := we.waf.NewTransaction()
 	if ct := contentType(c.Cfg.Proc); ct != "" {
 		tx.AddRequestHeader("Content-Type", ct)
@@ -535,6 +545,7 @@ func runCase(e *env, c *caseJ) (*runOut, error) {
 		var rerr error
 		var intr *types.Interruption
 		var pan any
+		chunk := 0
 		call := func() {
 			defer func() { pan = recover() }()
 			switch k.K {
@@ -545,6 +556,7 @@ func runCase(e *env, c *caseJ) (*runOut, error) {
 				if n > len(rest) {
 					n = len(rest)
 				}
+				chunk = n
 				intr, _, rerr = tx.WriteRequestBody(rest[:n])
 				rest = rest[n:]
 			case "p":
@@ -564,6 +576,7 @@ func runCase(e *env, c *caseJ) (*runOut, error) {
 		}
 		o = observe(tx, we, baseFD)
 		o.Err, o.Intr = rerr != nil, intr != nil
+		o.Chunk = chunk
 		if rerr != nil {
 			o.ErrText = rerr.Error()
 		}
@@ -627,7 +640,7 @@ func runCase(e *env, c *caseJ) (*runOut, error) {
 		}
 		out.injs = append(out.injs, terms...)
 		we.logbuf.Reset()
-		out.fin = finJ{Ok: cerr == nil, Tmp: dirSizes(we.tmp), Up: dirSizes(we.up), Open: fdCount() - baseFD}
+		out.fin = finJ{Ok: cerr == nil, Tmp: dirSizes(we.tmp), Up: dirSizes(we.up), Open: fdCount(we) - baseFD}
 		if cerr != nil {
 			out.fin.ErrText = cerr.Error()
 		}
@@ -701,7 +714,7 @@ func oracles(c *caseJ, out *runOut, we *wafEnv, tx2 *corazawaf.Transaction, preT
 		case "p":
 			// ProcessRequestBody reached the body processor (directly, or through the ProcessPartial path)
 			attempted := prev.Phase == 1 && !interrupted && !o.Err &&
-				((k.K == "p" && prev.Len > 0) || (k.K == "w" && !c.Cfg.Reject && o.Inbound && o.Len > 0 && int64(prev.Len) != c.Cfg.Limit))
+				((k.K == "p" && prev.Len > 0) || (k.K == "w" && !c.Cfg.Reject && int64(prev.Len+o.Chunk) >= c.Cfg.Limit && o.Len > 0 && int64(prev.Len) != c.Cfg.Limit))
 			if k.K == "p" && prev.Phase == 1 && !interrupted {
 				attempted = attempted || prev.Len == 0
 			}
@@ -993,7 +1006,7 @@ func genShape(r *rand.Rand, i int) shape {
 	var s shape
 	procs := []string{"multipart", "multipart", "multipart", "url", "json", "none"}
 	s.cfg.Proc = procs[i%len(procs)]
-	s.cfg.Keep = []string{"off", "off", "relevant", "on"}[(i/len(procs))%4]
+	s.cfg.Keep = []string{"off", "relevant", "on", "off", "on"}[i%5]
 	s.cfg.Audit = []string{"serial", "concurrent", "off"}[(i/2)%3]
 	s.cfg.AuditC = r.Intn(3) != 0
 	s.cfg.LogRule = r.Intn(3) != 0
@@ -1054,7 +1067,7 @@ func genShape(r *rand.Rand, i int) shape {
 		s.kind += "/disk"
 	}
 	// limit: far, or hit (reject / partial)
-	switch r.Intn(9) {
+	switch (i + r.Intn(2)) % 7 {
 	case 0:
 		s.cfg.Limit = int64(1 + r.Intn(n+1))
 		s.cfg.Reject = true
@@ -1252,7 +1265,7 @@ func Run(cfg vh.Config) (*vh.Result, error) {
 		res.InputDistribution["corpus"]++
 	}
 	r := vh.Rng(cfg.Seed, "c20")
-	nShapes := cfg.Pick(16, 420)
+	nShapes := cfg.Pick(16, 240)
 	for i := 0; i < nShapes; i++ {
 		s := genShape(r, i)
 		res.InputDistribution["shape:"+s.kind]++
